@@ -36,6 +36,9 @@ type Instance struct {
 	Opt    Options
 	// ExpectViolations lists assertion labels whose violation is a recorded known finding (value = description)
 	Known map[string]string
+	// Exact is the same harness without abstractions (uninterpreted functions); it is run when a counterexample found
+	// under the abstraction does not reproduce natively
+	Exact *Instance
 }
 
 func (i Instance) Name() string {
@@ -387,6 +390,7 @@ func (w *World) discharge(inst Instance, x *vexec.Exec, pl *sym.Pool, res *InstR
 // ---------------------------------------------------------------- native replay
 
 var replayMu sync.Mutex
+var scratchMu sync.Mutex // the scratch module holds one replay test file at a time
 var replaySeq int
 
 // Replay runs the harness natively against the real build with the model as its tape.
@@ -447,6 +451,8 @@ func (w *World) ReplayTape(pkg, fn, tapePath string) (string, error) {
 	replayMu.Unlock()
 	src := fmt.Sprintf("package %s\n\nimport (\n\t\"testing\"\n\t\"%s/vp\"\n)\n\nfunc TestVpReplay(t *testing.T) {\n\t%s()\n\tvp.Done()\n}\n", p.Name, ModPath, fn)
 	if _, isVirt := w.Virtual[pkg]; isVirt {
+		scratchMu.Lock()
+		defer scratchMu.Unlock()
 		dir, err := w.ScratchModule()
 		if err != nil {
 			return "", err
